@@ -79,5 +79,15 @@ fn main() {
         );
     }
     fs::write(Path::new(&out).join("wincut.rs"), text).unwrap();
+    // the thread-based communicator of the cfg(windows) build: std-only code, compiled here as it stands
+    let cpath = format!("{}/src/communicate.rs", repo);
+    println!("cargo:rerun-if-changed={}", cpath);
+    let csrc = fs::read_to_string(&cpath).unwrap_or_default();
+    let (wtext, wok) = match csrc.find("#[cfg(windows)]\nmod raw {").and_then(|p| cut(&csrc[p..], "mod raw {")) {
+        Some(t) => (format!("pub {}\n", t), true),
+        None => (String::from("pub mod raw { }\n"), false),
+    };
+    fs::write(Path::new(&out).join("wincomm.rs"), wtext).unwrap();
+    fs::write(Path::new(&out).join("wincomm_ok.rs"), format!("pub const WINCOMM_OK: bool = {};", wok)).unwrap();
     fs::write(Path::new(&out).join("wincut_ok.rs"), format!("pub const CUT_OK: bool = {};", ok)).unwrap();
 }
